@@ -260,6 +260,7 @@ theorem decodeChunks_cons_inv {flags : Option (List Nat)} {key cardM1 : Nat} {ds
     {i pos : Nat} {offs : Option (List Nat)} {bs S rest : List Nat}
     (h : Spec.decodeChunks flags ((key, cardM1) :: ds) i pos offs bs = some (S, rest)) :
     ∃ offs' vals r1 more,
+      (∀ os, offs = some os → ∃ tl, os = pos :: tl ∧ offs' = some tl) ∧
       Spec.decodeChunk (isRunAt flags i) (cardM1 + 1) bs = some (vals, r1) ∧
       Spec.decodeChunks flags ds (i + 1) (pos + (bs.length - r1.length)) offs' r1 = some (more, rest) ∧
       S = vals.map (key * 65536 + ·) ++ more := by
@@ -267,7 +268,7 @@ theorem decodeChunks_cons_inv {flags : Option (List Nat)} {key cardM1 : Nat} {ds
       ((Spec.decodeChunk r (cardM1 + 1) bs).bind fun x =>
         (Spec.decodeChunks flags ds (i + 1) (pos + (bs.length - x.snd.length)) offs' x.snd).bind fun y =>
           some (List.map (fun v => key * 65536 + v) x.fst ++ y.fst, y.snd)) = some (S, rest) →
-      ∃ offs' vals r1 more,
+      ∃ vals r1 more,
         Spec.decodeChunk r (cardM1 + 1) bs = some (vals, r1) ∧
         Spec.decodeChunks flags ds (i + 1) (pos + (bs.length - r1.length)) offs' r1 = some (more, rest) ∧
         S = vals.map (key * 65536 + ·) ++ more := by
@@ -275,7 +276,7 @@ theorem decodeChunks_cons_inv {flags : Option (List Nat)} {key cardM1 : Nat} {ds
     simp only [Option.bind_eq_some_iff, Prod.exists, Option.some.injEq, Prod.mk.injEq] at h
     obtain ⟨vals, r1, h1, more, r2, h2, hS, hr⟩ := h
     subst hr
-    exact ⟨offs', vals, r1, more, h1, h2, hS.symm⟩
+    exact ⟨vals, r1, more, h1, h2, hS.symm⟩
   have e := isRunAt_eq flags i
   cases flags with
   | none =>
@@ -283,20 +284,32 @@ theorem decodeChunks_cons_inv {flags : Option (List Nat)} {key cardM1 : Nat} {ds
     simp only at e
     rw [e]
     split at h
-    · exact key_step _ _ (by simpa only [Option.bind_some] using h)
+    · obtain ⟨vals, r1, more, h1, h2, h3⟩ := key_step _ _ (by simpa only [Option.bind_some] using h)
+      exact ⟨_, vals, r1, more, (by intro os hos; cases hos), h1, h2, h3⟩
     · simp at h
     · split at h
-      · exact key_step _ _ (by simpa only [Option.bind_some] using h)
+      · rename_i o os ho
+        obtain ⟨vals, r1, more, h1, h2, h3⟩ := key_step _ _ (by simpa only [Option.bind_some] using h)
+        refine ⟨_, vals, r1, more, ?_, h1, h2, h3⟩
+        intro os' hos
+        simp only [Option.some.injEq] at hos
+        exact ⟨os, by rw [← hos, ho], rfl⟩
       · simp at h
   | some f =>
     simp only [Spec.decodeChunks, bind, pure] at h
     simp only at e
     rw [e]
     split at h
-    · exact key_step _ _ (by simpa only [Option.bind_some] using h)
+    · obtain ⟨vals, r1, more, h1, h2, h3⟩ := key_step _ _ (by simpa only [Option.bind_some] using h)
+      exact ⟨_, vals, r1, more, (by intro os hos; cases hos), h1, h2, h3⟩
     · simp at h
     · split at h
-      · exact key_step _ _ (by simpa only [Option.bind_some] using h)
+      · rename_i o os ho
+        obtain ⟨vals, r1, more, h1, h2, h3⟩ := key_step _ _ (by simpa only [Option.bind_some] using h)
+        refine ⟨_, vals, r1, more, ?_, h1, h2, h3⟩
+        intro os' hos
+        simp only [Option.some.injEq] at hos
+        exact ⟨os, by rw [← hos, ho], rfl⟩
       · simp at h
 
 /-- the container loop: the model decodes what the reference decoder decodes, chunk by chunk -/
@@ -310,7 +323,7 @@ theorem decodeContainers_spec (chk dbg : Bool) (flags : Option (List Nat)) :
     obtain ⟨rfl, rfl⟩ := h
     exact ⟨[], rfl, rfl, by simp, rfl, hb⟩
   | (key, cardM1) :: ds, i, pos, offs, bs, S, rest, hb, h => by
-    obtain ⟨offs', vals, r1, more, h1, h2, hS⟩ := decodeChunks_cons_inv h
+    obtain ⟨offs', vals, r1, more, _, h1, h2, hS⟩ := decodeChunks_cons_inv h
     obtain ⟨st, hst, hwf, hel, hr1⟩ := decodeStore_spec chk dbg (cardM1 + 1) (isRunAt flags i) bs vals r1 hb
       (by omega) h1
     obtain ⟨cs, hcs, hk, hw, he, hr2⟩ := decodeContainers_spec chk dbg flags ds (i + 1) _ offs' r1 more rest hr1 h2
